@@ -16,7 +16,7 @@ BACKWARD = {'bfill', 'backfill', 'interpolate'}
 def check(ctx):
     M = ctx.M
     reach = M.reachable([RUN])
-    ctx.floor('C07.S1', 'functions reachable from BacktestTradingSession.run', len(reach), 60)
+    ctx.floor('C07.S1', 'functions reachable from BacktestTradingSession.run', len(reach), 40)
     # ---- S1: which market-data readers are reachable
     from ..lib import private_closure
     accessors = private_closure(M, ['CSVDailyBarDataSource.get_bid', 'CSVDailyBarDataSource.get_ask'])
@@ -46,7 +46,7 @@ def check(ctx):
                             M.funcs[q].site(), key='C07.S1|getter|%s' % callee)
     # ---- S2: temporal passthrough
     sites = vf.time_call_sites(M, [RUN])
-    ctx.floor('C07.S2', 'call sites carrying a time argument in the cone of run', len(sites), 40)
+    ctx.floor('C07.S2', 'call sites carrying a time argument in the cone of run', len(sites), 25)
     idioms = {}
     for fn, n, callee, p, a in sites:
         v, why = vf.classify_time_arg(M, fn, a)
